@@ -243,6 +243,68 @@ pub fn record_c08(a: &Args) -> usize {
     out.finish()
 }
 
+/// Specification growth: the public API around the protocol (Sign accessors, create_page, Frame accessors, Data::try_new)
+/// and the call sequence of examples/send_pages.rs for every sign type, flip style and a few addresses.
+pub fn record_api(a: &Args) -> usize {
+    use flipdot_core::{Data, Frame, MsgType};
+    let mut out = TraceOut::new(&a.out, "API", a.shards);
+    let mut rng = StdRng::seed_from_u64(a.seed ^ 0xA91);
+    let addrs = [3u16, 0, 0xFFFF, 0x100];
+    for (ti, typ) in ALL_TYPES.iter().enumerate() {
+        for (fi, flip) in [PageFlipStyle::Manual, PageFlipStyle::Automatic].into_iter().enumerate() {
+            out.balance();
+            let addr = addrs[(ti + fi) % 4];
+            let bus = Rc::new(RefCell::new(VirtualSignBus::new(vec![VirtualSign::new(Address(addr), flip)])));
+            let sign = Sign::new(bus.clone(), Address(addr), *typ);
+            out.emit(json!({"e": "sign", "typ": format!("{:?}", typ), "addr": addr, "w": sign.width(), "h": sign.height(),
+                            "rtyp": format!("{:?}", sign.sign_type()), "raddr": sign.address().0}));
+            out.emit(json!({"e": "prior", "addr": addr, "flip": flip_name(flip), "obs": obs(bus.borrow().sign(0)), "path_len": 0}));
+            let (w, h) = typ.dimensions();
+            let call = |out: &mut TraceOut, name: &str, pages: &[Page<'static>]| -> String {
+                out.emit(json!({"e": "call", "name": name, "typ": format!("{:?}", typ), "w": w, "h": h, "items": pages.iter().map(|p| j::bytes(p.as_bytes())).collect::<Vec<_>>()}));
+                let o = run_call(&sign, name, pages);
+                out.emit(json!({"e": "ret", "out": o, "obs": obs(bus.borrow().sign(0))}));
+                o
+            };
+            call(&mut out, "configure", &[]);
+            let mut pages = vec![];
+            for (pi, id) in [0u8, 1, rng.r#gen()].into_iter().enumerate() {
+                let mut p = sign.create_page(PageId(id));
+                out.emit(json!({"e": "mkpage", "typ": format!("{:?}", typ), "id": id, "w": p.width(), "h": p.height(), "bytes": j::bytes(p.as_bytes())}));
+                for x in 0..p.width() {
+                    for y in 0..p.height() {
+                        p.set_pixel(x, y, if pi == 0 { x % 4 == y % 4 } else { (x + y) % 5 > 2 });
+                    }
+                }
+                if pi < 2 {
+                    pages.push(p);
+                }
+            }
+            let o = call(&mut out, "send_pages", &pages);
+            if o == "Ok:Manual" {
+                call(&mut out, "show", &[]);
+                call(&mut out, "load", &[]);
+                call(&mut out, "show", &[]);
+            }
+        }
+    }
+    // Frame::new and its accessors; Data::try_new at and around the 255-byte limit
+    for len in (0..=16usize).chain([17, 100, 254, 255]) {
+        let d: Vec<u8> = (0..len).map(|_| rng.r#gen()).collect();
+        let (ad, t): (u16, u8) = (rng.r#gen(), rng.r#gen());
+        let f = Frame::new(Address(ad), MsgType(t), Data::try_new(d.clone()).unwrap());
+        out.emit(json!({"e": "frameapi", "addr": ad, "t": t, "data": j::bytes(&d), "r_addr": f.address().0, "r_t": f.message_type().0,
+                        "r_data": j::bytes(f.data()), "r_into": j::bytes(f.clone().into_data().get())}));
+    }
+    for len in [0usize, 1, 254, 255, 256, 257, 511, 512, 65535, 65536, 65791, 1 << 20] {
+        let ok = matches!(catch(|| Data::try_new(vec![0xA5u8; len]).is_ok()), Ok(true));
+        out.emit(json!({"e": "datatry", "len": len, "ok": ok}));
+        let okb = matches!(catch(|| { let v = vec![0x5Au8; len]; Data::try_new(v.as_slice()).is_ok() }), Ok(true));
+        out.emit(json!({"e": "datatry", "len": len, "ok": okb}));
+    }
+    out.finish()
+}
+
 #[allow(dead_code)]
 fn _unused(b: &mut VirtualSignBus<'static>) {
     let _ = b.process_message(Message::Hello(Address(0)));
